@@ -55,7 +55,7 @@ CHECKS["C08"] = dict(
 CHECKS["C09"] = dict(
     pkg="c09", race=False, level="exploration", timeout_quick=600, timeout_thorough=3600,
     technique="bounded-exhaustive enumeration of registration programs + rapid-generated programs, exact expected enter/leave trace and decorator tag order as oracle",
-    level_text="Every registration program with up to 5 (quick) / 7 (thorough) middleware registrations over {router-level, handler A, handler B} with the AddHandler calls at every legal position is executed on a real Router and the complete enter/leave trace of each handler is compared with the expected nesting; random programs (up to 20 registrations, 4 handlers, decorator lists up to 5, handler with the empty name) extend this beyond the bound. Complete below the bound, sampled above it. Late registrations: decorators before Run and while running, publishing handlers, a running handler stopped before late ones are added, and every running handler is probed again after each later RunHandlers.",
+    level_text="Every registration program with up to 5 (quick) / 7 (thorough) middleware registrations over {router-level, handler A, handler B} with the AddHandler calls at every legal position is executed on a real Router and the complete enter/leave trace of each handler is compared with the expected nesting; random programs (up to 20 registrations, 4 handlers, decorator lists up to 5, handler with the empty name) extend this beyond the bound. Complete below the bound, sampled above it. Late registrations: decorators before Run and while running, publishing handlers, a running handler stopped before late ones are added, and every running handler is probed again after each later RunHandlers. Random programs also register through a RouterPlugin, place a forwarder component with its own middlewares on the router, make refused duplicate AddHandler calls, and let handlers return several outputs that share a UUID.",
     level_note="Trusted: the trace recorder middlewares and the expected-order computation in c09_test.go. Registrations after Run are out of scope.",
     steps=[
         dict(name="exhaustive", run="^TestExhaustiveRegistrations$", quick=1, thorough=1),
@@ -138,7 +138,7 @@ _GC_NOTE = "Trusted: the history recorder and invariants in harness/gcprog (one 
 CHECKS["C04"] = dict(
     pkg="c04", race=True, level="exploration", timeout_quick=900, timeout_thorough=3600,
     technique="property-based testing of generated concurrent programs (rapid) against a real GoChannel with history invariants; schedule perturbation and forced overlaps through hook points; race detector",
-    level_text="Generated concurrent Publish/Subscribe programs over all configurations run against the real GoChannel; the complete history (every Publish interval, Subscribe interval, receipt with its message object/content/context, settlement) is recorded and checked: delivery to every current subscriber, redelivery grammar, copy separation, context life cycle. Published messages carry contexts of their own (live or already cancelled). A second test leaves one subscription sitting on an unsettled copy: the other subscriptions must receive everything meanwhile.",
+    level_text="Generated concurrent Publish/Subscribe programs over all configurations run against the real GoChannel; the complete history (every Publish interval, Subscribe interval, receipt with its message object/content/context, settlement) is recorded and checked: delivery to every current subscriber, redelivery grammar, copy separation, context life cycle. Published messages carry contexts of their own (live or already cancelled). A second test leaves one subscription sitting on an unsettled copy: the other subscriptions must receive everything meanwhile. Two of seven published originals were settled before Publish: their state must stay as it was.",
     level_note=_GC_NOTE,
     steps=[dict(name="delivery", run="^TestDelivery$", quick=500, thorough=160000, shards_thorough=14),
            dict(name="holding", run="^TestHoldingSubscriberDoesNotDelayOthers$", quick=300, thorough=60000, shards_thorough=2)],
@@ -146,7 +146,7 @@ CHECKS["C04"] = dict(
 CHECKS["C05"] = dict(
     pkg="c05", race=True, level="exploration", timeout_quick=900, timeout_thorough=3600,
     technique="property-based testing of generated concurrent programs (rapid) against a real GoChannel: hold-window observation of in-flight exclusivity, blocking-Publish/Ack ordering over the recorded history; known finding reproduced separately",
-    level_text="The same program machinery biased to held settlements and blocking mode: the consumer reads its channel while it holds an unsettled message (nothing may arrive), and for blocking mode the history must contain the Ack of every pre-existing subscription before the Publish return stamp, in publish order per publisher; every Publish must return. A third test blocks a Publish on a subscription whose consumer does not read (it may not even have received the message) and releases it by cancelling that subscription or closing the Pub/Sub: Publish must return, nothing is drained before it has.",
+    level_text="The same program machinery biased to held settlements and blocking mode: the consumer reads its channel while it holds an unsettled message (nothing may arrive), and for blocking mode the history must contain the Ack of every pre-existing subscription before the Publish return stamp, in publish order per publisher; every Publish must return. A third test blocks a Publish on a subscription whose consumer does not read (it may not even have received the message) and releases it by cancelling that subscription or closing the Pub/Sub: Publish must return, nothing is drained before it has. Publish calls made by subscribers while they hold a message (fresh follow-ups, follow-ups carrying the held message's context, the held object itself) are recorded and judged by the same blocking rule.",
     level_note=_GC_NOTE,
     steps=[dict(name="inflight", run="^TestOneInFlightAndBlocking$", quick=500, thorough=160000, shards_thorough=13),
            dict(name="released", run="^TestBlockedPublishReleased$", quick=300, thorough=60000, shards_thorough=2),
@@ -155,7 +155,7 @@ CHECKS["C05"] = dict(
 CHECKS["C11"] = dict(
     pkg="c11", race=True, level="exploration", timeout_quick=900, timeout_thorough=3600,
     technique="property-based testing of generated concurrent Publish/Subscribe programs (rapid) against a persistent GoChannel with forced overlaps at the persist/replay/register hook points; exactly-once multiset oracle at quiescence",
-    level_text="Persistent-mode programs with Subscribe calls overlapping Publish calls (forced by parking one side at the hook points between persisting, sending, replaying and registering) are run; at quiescence every subscription must hold exactly one acked delivery of every successfully published message of its topic.",
+    level_text="Persistent-mode programs with Subscribe calls overlapping Publish calls (forced by parking one side at the hook points between persisting, sending, replaying and registering) are run; at quiescence every subscription must hold exactly one acked delivery of every successfully published message of its topic. Every receipt is also compared with the published UUID, payload and metadata.",
     level_note=_GC_NOTE,
     steps=[dict(name="replay", run="^TestReplayExactlyOnce$", quick=500, thorough=160000, shards_thorough=12),
            dict(name="longhistory", run="^TestLongHistoryOverlap$", quick=120, thorough=4000, shards_thorough=16)],
@@ -174,7 +174,7 @@ CHECKS["C07"] = dict(
 CHECKS["C06"] = dict(
     pkg="c06", race=True, level="exploration", timeout_quick=900, timeout_thorough=3600,
     technique="property-based testing (rapid) of Router shutdown scenarios with forced schedules: the subject message is parked at a generated point of its path (hook points / handler gate / emitted inside the subscriber's Close) while 1..8 callers invoke Close; state sampled synchronously at every Close return and at Run's return",
-    level_text="Generated shutdown scenarios over handler sets, CloseTimeouts, caller counts, path points and release delays run against a real Router with scripted subscribers/publishers (and a GoChannel variant). Handler progress and settlement of every emitted message are sampled in the calling goroutine at the instant each Close call returns, at Run's return and after a 50 ms window, and compared with the graceful-close contract; time-outs must surface as an error in time. Further dimensions: subscriptions that end by themselves while an invocation runs, shutdown started through the Run context, a publisher whose Publish returns only when it is closed, a draining subscriber with a handler far beyond the timeout (Close must return within CloseTimeout+3 s); separate tests for Close while RunHandlers is between two handlers and for Close before Run (a Close that returned nil is held to 'none will start afterwards').",
+    level_text="Generated shutdown scenarios over handler sets, CloseTimeouts, caller counts, path points and release delays run against a real Router with scripted subscribers/publishers (and a GoChannel variant). Handler progress and settlement of every emitted message are sampled in the calling goroutine at the instant each Close call returns, at Run's return and after a 50 ms window, and compared with the graceful-close contract; time-outs must surface as an error in time. Further dimensions: subscriptions that end by themselves while an invocation runs, shutdown started through the Run context, a publisher whose Publish returns only when it is closed, a draining subscriber with a handler far beyond the timeout (Close must return within CloseTimeout+3 s); separate tests for Close while RunHandlers is between two handlers and for Close before Run (a Close that returned nil is held to 'none will start afterwards'). A further step calls Close (1..3 callers, and once more) after a start-up that failed in a Subscribe or in a plugin: every call returns. Handlers may fail with an error that wraps context.Canceled; every second handler publishes to the empty topic.",
     level_note="Trusted: the hook controller, synchronous sampling in the caller goroutine, scripted Pub/Subs. The path points are those instrumented; schedules between un-instrumented instructions are reached only by noise. 10 s liveness bounds re-confirmed once.",
     steps=[dict(name="close", run="^TestGracefulClose$", quick=160, thorough=36000, shards_thorough=15),
            dict(name="close-while-starting", run="^(TestCloseWhileStarting|TestCloseBeforeRun)$", quick=100, thorough=20000),
@@ -184,7 +184,7 @@ CHECKS["C06"] = dict(
 CHECKS["C10"] = dict(
     pkg="c10", race=True, level="exploration", timeout_quick=900, timeout_thorough=3600,
     technique="stateful model-based testing (rapid state machine) of the Router lifecycle API over scripted subscribers, plus a forced schedule parking RunHandlers right after Started() closes; race detector",
-    level_text="rapid drives random lifecycle programs (AddHandler before/after Run, Run, RunHandlers repeated and concurrent, Stop, context cancel, Close, probes) against a real Router and checks a model after every step: subscriptions per handler, Running() vs subscriptions, probe handling, Stop/Stopped usability, Run's return, second Run. The Started()->Stop() window is forced by parking the starter at a hook point. Forced tests: Stop of a started handler must return while RunHandlers is busy with other handlers; Run context cancelled before Run / during start-up; a second Run during start-up; Close before Run followed by Run; a failing Subscribe (Running() closed implies every handler subscribed). The machine also stops handlers twice, lets a publisher fail to Close and requires Stopped() of every started handler once Run has returned.",
+    level_text="rapid drives random lifecycle programs (AddHandler before/after Run, Run, RunHandlers repeated and concurrent, Stop, context cancel, Close, probes) against a real Router and checks a model after every step: subscriptions per handler, Running() vs subscriptions, probe handling, Stop/Stopped usability, Run's return, second Run. The Started()->Stop() window is forced by parking the starter at a hook point. Forced tests: Stop of a started handler must return while RunHandlers is busy with other handlers; Run context cancelled before Run / during start-up; a second Run during start-up; Close before Run followed by Run; a failing Subscribe (Running() closed implies every handler subscribed). The machine also stops handlers twice, lets a publisher fail to Close and requires Stopped() of every started handler once Run has returned. It makes AddHandler calls the router refuses (name taken) and bounds its own AddHandler/RunHandlers calls by the liveness bound.",
     level_note="Trusted: the lifecycle model in c10_test.go, scripted subscribers. Shutting down while a handler added after Run was never started is outside the property (documented need to call RunHandlers).",
     steps=[dict(name="machine", run="^TestLifecycleMachine$", quick=300, thorough=480000, shards_thorough=24),
            dict(name="forced-stop", run="^(TestStopRightAfterStarted|TestStopWithMessageInFlight|TestCloseDuringStartup|TestStartupInterference)$", quick=100, thorough=20000, shards_thorough=4)],
@@ -202,7 +202,7 @@ CHECKS["C18"] = dict(
 CHECKS["C01"] = dict(
     pkg="c01", race=True, level="fault_enumeration", timeout_quick=900, timeout_thorough=3600,
     technique="fault-script enumeration and rapid-generated fault sequences on real Router/GoChannel pipelines (faults injected in handlers and in a publisher wrapper on the k-th call), lineage-based at-least-once oracle and ack-after-accept invariant over every invocation",
-    level_text="Pipelines of real Routers over real GoChannels are run with scripted faults: every placement of up to 2 faults (5 kinds x k in 1..3) on small pipelines is enumerated, longer random fault scripts cover all shapes (fan-in, fan-out, 1..4 stages, blocking, per-hop instances) with schedule noise. Every source message must reach the final topic for every path, everything at the final topic must derive from a published source with the expected transform, and every invocation's consumed copy must be unsettled inside its output Publish and end Acked only after a successful Publish, otherwise Nacked.",
+    level_text="Pipelines of real Routers over real GoChannels are run with scripted faults: every placement of up to 2 faults (5 kinds x k in 1..3) on small pipelines is enumerated, longer random fault scripts cover all shapes (fan-in, fan-out, 1..4 stages, blocking, per-hop instances) with schedule noise. Every source message must reach the final topic for every path, everything at the final topic must derive from a published source with the expected transform, and every invocation's consumed copy must be unsettled inside its output Publish and end Acked only after a successful Publish, otherwise Nacked. Topic names of the random pipelines are generated strings (incl. the empty name and names with blanks around them).",
     level_note="Trusted: the fault-injecting publisher wrapper, lineage bookkeeping in handler metadata, bounded liveness (10 s, re-confirmed). Crash points (process death) are not modelled: GoChannel is in-process.",
     steps=[dict(name="exhaustive", run="^TestExhaustiveFaultPlacements$", quick=1, thorough=1),
            dict(name="random", run="^TestRandomPipelines$", quick=300, thorough=120000, shards_thorough=15)],
